@@ -57,7 +57,7 @@ def describe(rep):
                         'estimate per attempt are symbolic reals, the time step is an uninterpreted function of (value, time, step size); every feasible accept / reject / clamp pattern is executed; per path: '
                         'tiling, exact chaining, accepted steps within the tolerance unless the budget is used up, proposal = beta dt (tol/err)^(1/order) clipped to [dt_min, dt_max], one step size per block, '
                         'retry from the first rejected step with a smaller step unless dt_min binds; models are replayed on the float classes with the estimates of the model.')
-    rep.rule = 'state = explored path (restart-request pattern / branch pattern of the controllers); transition = branch decision; retry budgets 0..3; the restart counter of every attempt is compared with the history (number of restarts of the step with that start time in a row)'
+    rep.rule = 'state = explored path (restart-request pattern / branch pattern of the controllers); transition = branch decision; retry budgets 0..3; the restart counter of every attempt is compared with the history (number of restarts of the step with that start time in a row); case cc_params: configured parameters of the restart / step-size controllers arrive unchanged at the objects a real controller carries (ENUMERATED)'
     rep.assume('restart requests are injected by a harness convergence controller (control order 90) when iter >= maxiter',
                'fixed exactly representable dt in (b) so that accepted start times are exact', 'beta <= 1 (beta < 1 for the strict retry-with-smaller-step clause), e_est > 0, e_tol > 0 in (c)', 'factor_if_not_converged > 1, residual_max_tol > restol (sensible configuration)')
     rep.out_of_scope('error estimators themselves (numerical quantities)', 'EstimateContractionFactor (its outputs are symbolic inputs of the avoid_restarts rule), StepSizeRounding (rounds by powers of ten through log10), interpolation between restarts beyond the listed histories', 'MPI flavours',
